@@ -67,26 +67,26 @@ theorem get_cloneFor (driver : Cache) (a i : Nat) : (cloneFor driver i).get (a, 
 section Programs
 variable (next : Nat → Nat) (keep : Nat → Bool)
 
-theorem stepNew_done (j : Job) (i : Nat) (l : Local) (h : 6 ≤ l.pc) : stepNew next keep j i l = l := by
-  unfold stepNew
+theorem stepLocal_done (j : Job) (i : Nat) (l : Local) (h : 6 ≤ l.pc) : stepLocal next keep j i l = l := by
+  unfold stepLocal
   split <;> first | rfl | omega
 
 /-- the sampling loop at pc 3: one draw per element, in order -/
 theorem sample_loop (j : Job) (i : Nat) (cid : Option Key) (cache : Cache) (out : Option (List Nat))
     (todo : List Nat) (rng : Nat) (kept : List Nat) :
-    ∃ g, iter (stepNew next keep j i) todo.length ⟨3, cid, rng, todo, kept, cache, out⟩ =
+    ∃ g, iter (stepLocal next keep j i) todo.length ⟨3, cid, rng, todo, kept, cache, out⟩ =
       ⟨3, cid, g, [], kept ++ sampleSpec next keep rng todo, cache, out⟩ := by
   induction todo generalizing rng kept with
   | nil => exact ⟨rng, by simp [iter, sampleSpec]⟩
   | cons x rest ih =>
     obtain ⟨g, hg⟩ := ih (next rng) (if keep (next rng) then kept ++ [x] else kept)
     refine ⟨g, ?_⟩
-    simp only [List.length_cons, iter, stepNew, hg, sampleSpec]
+    simp only [List.length_cons, iter, stepLocal, hg, sampleSpec]
     cases keep (next rng) <;> simp
 
 theorem run_miss (j : Job) (i : Nat) (clone : Cache) (src : List Nat) (extra : Nat)
     (h : clone.get (j.rddId, i) = none) :
-    ∃ g, iter (stepNew next keep j i) (src.length + 6 + extra) (initLocal clone src) =
+    ∃ g, iter (stepLocal next keep j i) (src.length + 6 + extra) (initLocal clone src) =
       ⟨6, some (j.rddId, i), g, [], sampleSpec next keep (j.seed + i) src,
         clone.put (j.rddId, i) (sampleSpec next keep (j.seed + i) src),
         some (sampleSpec next keep (j.seed + i) src)⟩ := by
@@ -94,31 +94,31 @@ theorem run_miss (j : Job) (i : Nat) (clone : Cache) (src : List Nat) (extra : N
   obtain ⟨g, hg⟩ := sample_loop next keep j i (some (j.rddId, i)) clone none src (j.seed + i) []
   refine ⟨g, ?_⟩
   rw [e, iter_add, iter_add, iter_add]
-  have h3 : iter (stepNew next keep j i) 3 (initLocal clone src) =
+  have h3 : iter (stepLocal next keep j i) 3 (initLocal clone src) =
       ⟨3, some (j.rddId, i), j.seed + i, src, [], clone, none⟩ := by
-    simp [iter, initLocal, stepNew, h]
+    simp [iter, initLocal, stepLocal, h]
   rw [h3, hg]
   rw [iter_fixed]
-  · simp [iter, stepNew, get_put_self]
-  · apply stepNew_done; simp [iter, stepNew]
+  · simp [iter, stepLocal, get_put_self]
+  · apply stepLocal_done; simp [iter, stepLocal]
 
 theorem run_hit (j : Job) (i : Nat) (clone : Cache) (src : List Nat) (extra : Nat) (d : List Nat)
     (h : clone.get (j.rddId, i) = some d) :
-    iter (stepNew next keep j i) (src.length + 6 + extra) (initLocal clone src) =
+    iter (stepLocal next keep j i) (src.length + 6 + extra) (initLocal clone src) =
       ⟨6, some (j.rddId, i), 0, src, [], clone, some d⟩ := by
   have e : src.length + 6 + extra = 3 + (src.length + 3 + extra) := by omega
   rw [e, iter_add]
   rw [iter_fixed]
-  · simp [iter, initLocal, stepNew, h]
-  · apply stepNew_done; simp [iter, initLocal, stepNew, h]
+  · simp [iter, initLocal, stepLocal, h]
+  · apply stepLocal_done; simp [iter, initLocal, stepLocal, h]
 
 /-- a finished task ignores further steps -/
 theorem run_extra (j : Job) (i : Nat) (clone : Cache) (src : List Nat) (extra : Nat) :
-    iter (stepNew next keep j i) (src.length + 6 + extra) (initLocal clone src) =
-      iter (stepNew next keep j i) (src.length + 6) (initLocal clone src) := by
+    iter (stepLocal next keep j i) (src.length + 6 + extra) (initLocal clone src) =
+      iter (stepLocal next keep j i) (src.length + 6) (initLocal clone src) := by
   rw [iter_add]
   apply iter_fixed
-  apply stepNew_done
+  apply stepLocal_done
   cases h : clone.get (j.rddId, i) with
   | none => obtain ⟨g, hg⟩ := run_miss next keep j i clone src 0 h; rw [Nat.add_zero] at hg; rw [hg]; exact Nat.le_refl 6
   | some d => have hg := run_hit next keep j i clone src 0 d h; rw [Nat.add_zero] at hg; rw [hg]; exact Nat.le_refl 6
@@ -139,7 +139,7 @@ def cacheSpec (j : Job) (look : Cache) (c : Cache) (src : List Nat) (i : Nat) : 
 
 theorem runTask_eq (j : Job) (i : Nat) (c : Cache) (src : List Nat) :
     runTask next keep j i (initLocal c src) =
-      iter (stepNew next keep j i) (src.length + 6 + 0) (initLocal c src) := rfl
+      iter (stepLocal next keep j i) (src.length + 6 + 0) (initLocal c src) := rfl
 
 theorem runTask_out (j : Job) (i : Nat) (c : Cache) (src : List Nat) :
     (runTask next keep j i (initLocal c src)).out = some (outSpec next keep j c src i) := by
@@ -339,6 +339,42 @@ theorem foldl_id_of_mem {α β : Type} (f : β → α → β) (l : List α) (b :
     simp only [List.foldl_cons]
     rw [h x (by simp)]
     exact ih b (fun a ha => h a (by simp [ha]))
+
+/-! ### one micro-step of the whole system -/
+
+/-- one step of thread `i`: task `i` advances by its private step, nobody else moves, the shared generator is
+untouched and the only possible write to the shared dataset object is the dead store of `(dataset id, i)` -/
+theorem sys_stepNew (j : Job) (i : Nat) (s : Sys) :
+    (Sys.stepNew next keep j i s).shared.rng = s.shared.rng ∧
+    ((Sys.stepNew next keep j i s).shared.attrCid = s.shared.attrCid ∨
+      (Sys.stepNew next keep j i s).shared.attrCid = some (j.rddId, i)) ∧
+    (Sys.stepNew next keep j i s).tasks.length = s.tasks.length ∧
+    ∀ k, (Sys.stepNew next keep j i s).tasks[k]? =
+      if k = i then (s.tasks[k]?).map (stepLocal next keep j i) else s.tasks[k]? := by
+  unfold Sys.stepNew
+  cases h : s.tasks[i]? with
+  | none =>
+    refine ⟨rfl, Or.inl rfl, rfl, fun k => ?_⟩
+    by_cases hk : k = i
+    · subst hk; simp [h]
+    · simp [hk]
+  | some l =>
+    simp only [stepNew]
+    refine ⟨?_, ?_, by simp, fun k => ?_⟩
+    · split <;> rfl
+    · split
+      · exact Or.inr rfl
+      · exact Or.inl rfl
+    · by_cases hk : k = i
+      · subst hk
+        obtain ⟨hlt, hl⟩ := List.getElem?_eq_some_iff.mp h
+        simp [hlt, hl]
+      · have hk' : i ≠ k := fun e => hk e.symm
+        simp [hk, hk']
+
+theorem iter_succ_map {α : Type} (f : α → α) (n : Nat) (o : Option α) :
+    (o.map f).map (iter f n) = o.map (iter f (n + 1)) := by
+  cases o <;> rfl
 
 end Programs
 
